@@ -25,6 +25,14 @@ RULE = ('case = (structure family, one column, descriptions D, base lists B, obj
         '`ps.data = <other column of the same length>`, full observation, ... judged against the spec for the CURRENT '
         'column after every step; exhaustive over all ordered pairs of distinct 2-row columns on small grids, then '
         'random histories of 2-5 steps on columns up to 7 rows); '
+        'extreme streams: value pools single precision cannot hold (decimal fractions, integers above 2**24 / 2**31, '
+        'nearly equal doubles, +-inf, -0.0, denormals, > float32 max) exhaustively for <= 2 rows and randomly up to 9 '
+        'rows, also in ps.data histories; index lists with repetitions / unsorted / of length n without being a '
+        'permutation / longer than the column, exhaustively for <= 3 rows; columns with 13..129 rows; tuples and '
+        'one-shot iterators as index collections; set values whose text order differs from their numeric order. '
+        'The implementation is always driven by a hostile-but-legal caller: the column object (and its mutable cells) '
+        'is cleared after construction / assignment, ONE list object per role is refilled and re-used for every call '
+        '(and checked to be left alone), every returned list/set is mutated in place after it has been recorded. '
         'a separate malformed stream (0-row column, out-of-range indexes, non-descriptions, bad cells). '
         'non-trivial = column with >= 2 distinct values and at least one base list that is neither None nor a sorted '
         'prefix; distinct = distinct case (column, structure, D, B, O).  One "evaluation" is one column with its whole '
@@ -37,7 +45,10 @@ EXHAUSTIVE = {
              'lists; attribute: all boolean columns <= 4 rows x {False,True} x bases x object lists; '
              'histories (build, observe, observe, ps.data = other column, observe, observe): all ordered pairs of distinct '
              '2-row interval columns over {0,1,2} (1260), of 2-row set columns over the subsets of {a,b} (240), of '
-             'boolean columns with <= 3 rows (70)',
+             'boolean columns with <= 3 rows (70); extreme values: all columns <= 2 rows over every 4-number window of 9 '
+             'hostile value pools (1650) x 21 descriptions x all bases x all object lists; extreme index lists: all '
+             'columns <= 3 rows (interval over {0,1,2}: 258, set over subsets of {a,b}: 84, attribute: 14) x all '
+             'descriptions x every index list of length <= n+1 WITH repetitions as base and as object list',
     'thorough': 'the quick scope, plus interval columns with 5 rows over {0,1,2} (6 values) and set columns with 5 rows '
                 'over the 4 subsets of {a,b}, with sorted and reversed base/object lists',
 }
@@ -53,9 +64,14 @@ EXPLANATION = ('extension_i and intention_i (non-empty A) outputs are pinned uni
                'describe_pattern of the modelled description (string formatting done in this harness, trusted).')
 ASSUMPTIONS = ['a column has at least one row (DESIGN section 6); the 0-row column is only compared with the model '
                '(there IntervalNumpyPS raises IndexError where IntervalPS answers [] — outside the property\'s scope)',
-               'index arguments are duplicate-free lists of valid non-negative indexes',
-               'numbers are finite (no NaN/inf) and exactly representable; the model works on integers, the harness '
-               'scales dyadic test values by a power of two (only comparisons are applied to them)',
+               'index arguments are lists (or tuples; base sets also one-shot iterators) of valid non-negative indexes; '
+               'repetitions and any order are in scope (the theorems need no duplicate-freeness): the extension keeps '
+               'the base order and multiplicity',
+               'numbers are doubles other than NaN (so +-inf, -0.0, decimal fractions, integers up to 2**53, denormals); '
+               'the model works on integers: the harness either scales dyadic test values by a power of two or sends '
+               'the RANK of each value in an explicit pool of test numbers (only comparisons are applied to them); an '
+               'implementation output that is not exactly one of the numbers handed in is a failure; 0.0 and -0.0 are '
+               'not mixed in one column (they are equal, and which sign survives set()/np.unique is unspecified)',
                'interval descriptions are None, a number, or a 2-sequence of numbers']
 TRUSTED = ['formatting of binary-attribute names (describe_pattern) is reproduced in the harness from the modelled description',
            'Python set iteration order is not modelled: every use in the anchored code goes through sorted/min/max/len']
@@ -82,6 +98,12 @@ def _sorted_rev(n):
         if len(s) > 1:
             out.append(list(s)[::-1])
     return out
+
+
+def _rep_lists(n):
+    """every index list over range(n) of length <= n + 1, repetitions allowed (so: unsorted lists, lists with a
+    repeated object, lists of length exactly n that are NOT a permutation, lists longer than the column)"""
+    return [list(p) for k in range(n + 2) for p in itertools.product(range(n), repeat=k)]
 
 
 def _iv_values(k):
@@ -117,6 +139,8 @@ def _expand(c):
                 v = _bases(n) if k == 'bases' else _objs(n)
             elif tok == 'SR':
                 v = ([None] if k == 'bases' else []) + _sorted_rev(n)
+            elif tok == 'REP':
+                v = ([None] if k == 'bases' else []) + _rep_lists(n)
             elif tok.startswith('GRID'):
                 g = int(tok[4:])
                 v = {'iv': lambda: _iv_descs(g), 'set': lambda: [None] + _subsets(g), 'attr': lambda: [0, 1]}[c['ps']]()
@@ -347,9 +371,132 @@ def _history(tier, seed, boost):
             yield dict(extra, stream='history', ps=ps, history=hist)
 
 
+# value pools whose numbers single precision (or a sloppy cast / string round trip) cannot hold; strictly increasing
+POOLS = {
+    'decimal': ['0.1', '0.3', '1.1', '19.99'],
+    'decimal-neg': ['-19.99', '-0.7', '-0.0', '1e-07', '0.2'],
+    'above-2**24': ['16777215', '16777216', '16777217', '16777219'],
+    'above-2**24-float': ['-16777217.0', '5.0', '16777216.0', '16777217.0'],
+    'above-2**31': ['2147483647', '2147483648', '2147483649', '4294967297', '9007199254740991'],
+    'nearly-equal': ['1.0', '1.0000000000000002', '1.0000000001', '1.0000001'],
+    'sum-artefact': ['0.1', '0.2', '0.3', '0.30000000000000004'],
+    'infinite': ['-inf', '-1e308', '-0.0', '5e-324', '1e308', 'inf'],
+    'tiny-huge': ['1e-320', '1e-40', '1e-38', '3.4028235e38', '3.5e38', '1.7976931348623157e308'],
+}
+
+
+for _name, _pool in POOLS.items():
+    _vals = [float(t) for t in _pool]
+    assert all(a < b for a, b in zip(_vals, _vals[1:])), _name
+
+
+def _pool_cols(rng, k, n):
+    col = []
+    for _i in range(n):
+        a, b = sorted((rng.randrange(k), rng.randrange(k)))
+        r = rng.random()
+        col.append(a if (r < 0.4 or a == b) else [a, b] if r < 0.9 else [a, a])
+    return col
+
+
+def _extremes(tier, seed, boost):
+    """(H3) values, index lists and sizes at the edges of what the structures accept."""
+    rng = random.Random(seed * 1000003 + 1616)
+    big = tier == 'thorough' or boost
+    # -- hostile value pools: exhaustive over all columns with <= 2 rows on 4 pool numbers (sliding window over the
+    #    pool), all descriptions on those numbers, all base / object lists; then random taller columns on the whole pool
+    for name, pool in POOLS.items():
+        for lo in range(0, len(pool) - 3):
+            win = pool[lo:lo + 4]
+            for n in (1, 2):
+                for col in itertools.product(_iv_values(4), repeat=n):
+                    yield dict(stream='extreme-values', ps='iv', pool=win, poolname=name, col=list(col), scale=1, num='float',
+                               descs='GRID4', bases='ALL', objs='ALL', bin=True)
+        k = len(pool)
+        for _ in range(12 if not big else 120):
+            n = rng.randint(3, 9)
+            descs = [None] + [rng.randrange(k) for _k in range(2)] + \
+                [sorted((rng.randrange(k), rng.randrange(k))) for _k in range(7)] + [[k - 1, 0]]
+            yield dict(stream='extreme-values', ps='iv', pool=pool, poolname=name, col=_pool_cols(rng, k, n), scale=1, num='float',
+                       descs=descs, bases=[None, list(range(n))[::-1]] + _rand_lists(rng, n, 4),
+                       objs=[[]] + _rand_lists(rng, n, 6, allow_empty=False), bin=True,
+                       idxform=rng.choice(('list', 'list', 'tuple', 'iter')))
+    # a history on hostile numbers: the replaced column must be held exactly as well
+    for name, pool in POOLS.items():
+        k = len(pool)
+        for _ in range(4 if not big else 40):
+            n = rng.randint(1, 4)
+            ob = dict(descs=[None] + [[a, b] for a in range(k) for b in range(a, k)][::2], bases='ALL', objs='ALL', bin=True)
+            c0, c1 = _pool_cols(rng, k, n), _pool_cols(rng, k, n)
+            yield dict(stream='history', ps='iv', pool=pool, poolname=name, scale=1, num='float',
+                       history=[dict(ob, col=c0, assign=True), dict(ob, col=c1, assign=True), dict(ob, col=c1, assign=False),
+                                dict(ob, col=c0, assign=True)])
+    # set values that sort differently as text and as numbers / by case; values of mixed width
+    for vpool in ([2, 9, 10, 100], [-1, 0, 7, 64, 65], ['B', 'a', 'aa', 'b'], ['10', '2', '9'], [0.1, 0.5, 19.99]):
+        k = len(vpool)
+        kk = min(k, 4)
+        for _ in range(6 if not big else 40):
+            n = rng.randint(1, 6)
+            scol = [[v for v in range(kk) if rng.random() < 0.5] for _i in range(n)]
+            sd = [None, [], list(range(k))] + [[v for v in range(k) if rng.random() < 0.5] for _k in range(5)]
+            yield dict(stream='extreme-values', ps='set', vpool=vpool, col=scol, vals='pool', form=rng.choice(('set', 'list', 'frozenset')),
+                       descs=sd, bases=[None] + _rand_lists(rng, n, 4), objs=[[]] + _rand_lists(rng, n, 5, allow_empty=False),
+                       bin=True, idxform=rng.choice(('list', 'tuple', 'iter')))
+    # -- index lists with repetitions / unsorted / of length n without being a permutation / longer than the column:
+    #    exhaustive over all columns with <= 3 rows on small grids
+    for n in (1, 2, 3):
+        for col in itertools.product(_iv_values(3), repeat=n):
+            yield dict(stream='extreme-index-lists', ps='iv', col=list(col), scale=1, num='int', descs='GRID3', bases='REP',
+                       objs='REP', bin=False)
+        for col in itertools.product(_subsets(2), repeat=n):
+            yield dict(stream='extreme-index-lists', ps='set', col=[list(v) for v in col], vals='str', form='set',
+                       descs='GRID2', bases='REP', objs='REP', bin=False)
+        for col in itertools.product((0, 1), repeat=n):
+            yield dict(stream='extreme-index-lists', ps='attr', col=list(col), raw='bool', descs='GRID2', bases='REP',
+                       objs='REP', bin=False)
+    # the same as a history (a repeated-index query must not disturb later answers; then replace the data)
+    for n in (2, 3):
+        for _ in range(25 if not big else 200):
+            ob = dict(bases='REP', objs='REP', bin=True)
+            for ps, mk, extra, grid in (
+                    ('iv', lambda: [rng.choice(_iv_values(3)) for _i in range(n)], dict(scale=1, num='int'), 'GRID3'),
+                    ('set', lambda: [rng.choice(_subsets(2)) for _i in range(n)], dict(vals='str', form='set'), 'GRID2'),
+                    ('attr', lambda: [rng.randint(0, 1) for _i in range(n)], dict(raw='bool'), 'GRID2')):
+                c0, c1 = mk(), mk()
+                yield dict(extra, stream='history', ps=ps,
+                           history=[dict(ob, descs=grid, col=c0, assign=True), dict(ob, descs=grid, col=c1, assign=True),
+                                    dict(ob, descs=grid, col=c1, assign=False)])
+    # -- sizes: two-digit indexes (>= 13 rows), more than 64 rows (bit-packed extents / 64-bit masks), random index
+    #    lists with repetitions (one of them of length exactly n), tuples and one-shot iterators as index collections
+    for _ in range(40 if not big else 400):
+        n = rng.choice((13, 14, 16, 17, 31, 32, 33, 63, 64, 65, 66, 100, 129))
+        rep = [[rng.randrange(n) for _i in range(n)], [rng.randrange(n) for _i in range(rng.randint(1, 2 * n))],
+               sorted(rng.sample(range(n), n // 2), reverse=True), [n - 1] * 3, list(range(n))[::-1]]
+        bases = [None, list(range(n))] + rep + _rand_lists(rng, n, 2)
+        objs = [[]] + rep + _rand_lists(rng, n, 3, allow_empty=False)
+        idxform = rng.choice(('list', 'list', 'tuple', 'iter'))
+        span = rng.choice((3, 12))
+        col = []
+        for _i in range(n):
+            a, b = sorted((rng.randint(-span, span), rng.randint(-span, span)))
+            col.append(a if rng.random() < 0.4 else [a, b])
+        descs = [None, rng.randint(-span, span)] + [sorted((rng.randint(-span, span), rng.randint(-span, span))) for _k in range(5)]
+        yield dict(stream='extreme-sizes', ps='iv', col=col, scale=rng.choice((1, 4)), num='float', descs=descs, bases=bases, objs=objs,
+                   bin=True, idxform=idxform)
+        k = rng.randint(1, 4)
+        dens = rng.choice((0.2, 0.5, 0.8))
+        yield dict(stream='extreme-sizes', ps='set', col=[[v for v in range(k) if rng.random() < dens] for _i in range(n)],
+                   vals=rng.choice(('str', 'int')), form='set',
+                   descs=[None, [], list(range(k))] + [[v for v in range(k) if rng.random() < 0.5] for _k in range(4)],
+                   bases=bases, objs=objs, bin=True, idxform=idxform)
+        yield dict(stream='extreme-sizes', ps='attr', col=[int(rng.random() < dens) for _i in range(n)], raw='bool', descs=[0, 1],
+                   bases=bases, objs=objs, bin=True, idxform=idxform)
+
+
 def gen(tier, seed, boost=False):
     yield from _corpus()
     yield from _history(tier, seed, boost)
+    yield from _extremes(tier, seed, boost)
     yield from _exhaustive(tier, boost)
     yield from _random(tier, seed, boost)
     yield from _malformed(tier, seed)
@@ -365,117 +512,113 @@ def _ints(r):
     return [int(x) for x in r]
 
 
-def _canon_num(x, scale):
-    v = float(x) * scale
-    if v != v or v in (float('inf'), float('-inf')) or not v.is_integer():
-        return {'nonint': repr(x)}
-    return int(v)
+def _parse_num(t):
+    """A pool entry is the text of a Python number: 'inf', '-0.0', '0.1', '1e308' -> float; '16777217' -> int."""
+    t = str(t)
+    return float(t) if any(ch in t for ch in '.einf') else int(t)
+
+
+def _numconv(c):
+    """(cell value of a code, canonical code of an output number, float shown in attribute names) for an interval
+    case.  Without 'pool': code = value * scale (dyadic grid).  With 'pool' (strictly increasing numbers, given as
+    text): code = index in the pool, so ANY doubles can be used - decimal fractions, integers above 2**24, nearly
+    equal values, +-inf, -0.0 - while the Lean model still sees small integers (only the order matters to it).  An
+    output that is not exactly one of the pool's numbers (e.g. a value rounded to float32) has no code."""
+    if c.get('pool'):
+        vals = [_parse_num(t) for t in c['pool']]
+        index = {float(v): i for i, v in enumerate(vals)}
+
+        def canon(x):
+            x = float(x)
+            return index[x] if x in index else {'not-a-column-value': repr(x)}
+        return (lambda i: vals[i]), canon, (lambda i: float(vals[i]))
+    scale = c['scale']
+    cv = (lambda x: x) if (scale == 1 and c.get('num') == 'int') else (lambda x: x / scale)
+
+    def canon(x):
+        v = float(x) * scale
+        if v != v or v in (float('inf'), float('-inf')) or not v.is_integer():
+            return {'nonint': repr(x)}
+        return int(v)
+    return cv, canon, (lambda i: float(i / scale))
+
+
+def _spoil(x):
+    """Hostile-but-legal caller: in-place mutation of a value the library handed out or was handed in.  Correct code
+    hands out fresh objects and copies what it keeps, so this never changes a later answer."""
+    try:
+        if isinstance(x, list):
+            x.append(10 ** 6)
+            x.clear()
+        elif isinstance(x, set):
+            x.add('spoiled')
+            x.clear()
+    except Exception:
+        pass
 
 
 def _obtain(state, key, cls, col, assign):
     """The structure object for one phase: built fresh (no history / first phase), re-used untouched
-    (assign=False) or re-used after `ps.data = col` (the public setter of AbstractPS)."""
+    (assign=False) or re-used after `ps.data = col` (the public setter of AbstractPS).  The column object passed in
+    (and its mutable cells) is cleared by the caller afterwards."""
     if state is None or key not in state:
         ps = cls(col, 'x')
         if state is not None:
             state[key] = ps
-        return ps
-    ps = state[key]
-    if assign:
-        ps.data = col
+    else:
+        ps = state[key]
+        if assign:
+            ps.data = col
+        else:
+            return ps
+    for v in col:
+        _spoil(v)
+    _spoil(col)
     return ps
 
 
-def _impl_iv(c, state=None):
-    from fcapy.mvcontext.pattern_structure import IntervalPS, IntervalNumpyPS
-    scale = c['scale']
-    if scale == 1 and c.get('num') == 'int':
-        cv = lambda x: x
-    else:
-        cv = lambda x: x / scale
-    col = [tuple(cv(y) for y in x) if isinstance(x, list) else cv(x) for x in c['col']]
-    col = [list(x) if (isinstance(x, tuple) and i % 2) else x for i, x in enumerate(col)]
-    descs = [None if d is None else tuple(cv(y) for y in d) if isinstance(d, list) else cv(d) for d in c['descs']]
-    out = {}
-    for eng, cls in (('py', IntervalPS), ('np', IntervalNumpyPS)):
-        try:
-            ps = _obtain(state, eng, cls, list(col), c.get('assign', True))
-        except Exception as e:
-            out[eng] = {'data': _err(e)}
-            continue
-        o = {}
-        raw = ps._data.tolist() if hasattr(ps._data, 'tolist') else ps._data
-        o['data'] = [[_canon_num(v[0], scale), _canon_num(v[1], scale)] for v in raw]
-        ext = []
-        for d in descs:
-            row = []
-            for b in c['bases']:
-                try:
-                    row.append(_ints(ps.extension_i(d, None if b is None else list(b))))
-                except Exception as e:
-                    row.append(_err(e))
-            ext.append(row)
-        o['ext'] = ext
-        ints = []
-        for A in c['objs']:
-            try:
-                r = ps.intention_i(list(A))
-                ints.append(None if r is None else [_canon_num(r[0], scale), _canon_num(r[1], scale)])
-            except Exception as e:
-                ints.append(_err(e))
-        o['int'] = ints
-        if c.get('bin'):
-            try:
-                pairs = list(ps.to_bin_attr_extents())
-                o['bin'] = {'names': [str(nm) for nm, _ in pairs], 'flags': [[int(x) for x in e.tolist()] for _, e in pairs]}
-            except Exception as e:
-                o['bin'] = _err(e)
-            try:
-                o['nbin'] = int(ps.n_bin_attrs)
-            except Exception as e:
-                o['nbin'] = _err(e)
-        out[eng] = o
-    return out
+class _Caller:
+    """How index collections are handed over: idxform 'list' (default) re-uses ONE list object per role, refilled in
+    place before every call (and checks the callee left it alone); 'tuple' passes tuples; 'iter' passes base sets as
+    one-shot iterators (object lists stay lists: intention_i documents a list)."""
+    def __init__(self, c):
+        self.form = c.get('idxform', 'list')
+        self.b, self.a = [], []
+
+    def base(self, b):
+        if b is None:
+            return None
+        if self.form == 'tuple':
+            return tuple(b)
+        if self.form == 'iter':
+            return iter(list(b))
+        self.b[:] = b
+        return self.b
+
+    def objs(self, A):
+        if self.form == 'tuple':
+            return tuple(A)
+        self.a[:] = A
+        return self.a
 
 
-def _set_value(codes, c):
-    conv = (lambda v: LETTERS[v]) if c['vals'] == 'str' else (lambda v: v)
-    xs = [conv(v) for v in codes]
-    form = c['form']
-    if form == 'set':
-        return set(xs)
-    if form == 'frozenset':
-        return frozenset(xs)
-    if form == 'tuple':
-        return tuple(xs)
-    if form == 'duplist':
-        return xs + xs[:1]
-    if form == 'atom' and len(xs) == 1:
-        return xs[0]
-    return list(xs)
-
-
-def _set_codes(s, c):
-    if c['vals'] == 'str':
-        return sorted(LETTERS.index(v) for v in s)
-    return sorted(int(v) for v in s)
-
-
-def _impl_set(c, state=None):
-    from fcapy.mvcontext.pattern_structure import SetPS
-    conv = (lambda v: LETTERS[v]) if c['vals'] == 'str' else (lambda v: v)
-    try:
-        ps = _obtain(state, 'set', SetPS, [_set_value(v, c) for v in c['col']], c.get('assign', True))
-    except Exception as e:
-        return {'data': _err(e)}
-    o = {'data': [_set_codes(s, c) for s in ps._data]}
-    descs = [None if d is None else {conv(v) for v in d} for d in c['descs']]
+def _observe(ps, c, mk_desc, canon_int):
+    """The full observation of one structure object: extension_i over descs x bases, intention_i over objs,
+    to_bin_attr_extents, n_bin_attrs; every returned mutable value is spoiled after it has been recorded."""
+    o = {}
+    caller = _Caller(c)
     ext = []
-    for d in descs:
+    for d in c['descs']:
         row = []
         for b in c['bases']:
             try:
-                row.append(_ints(ps.extension_i(None if d is None else set(d), None if b is None else list(b))))
+                arg = caller.base(b)
+                r = ps.extension_i(mk_desc(d), arg)
+                res = _ints(r)
+                if isinstance(arg, list) and arg != list(b):
+                    res = {'argument-mutated': 'base_objects_i'}
+                _spoil(r)
+                row.append(res)
             except Exception as e:
                 row.append(_err(e))
         ext.append(row)
@@ -483,7 +626,13 @@ def _impl_set(c, state=None):
     ints = []
     for A in c['objs']:
         try:
-            ints.append(_set_codes(ps.intention_i(list(A)), c))
+            arg = caller.objs(A)
+            r = ps.intention_i(arg)
+            res = canon_int(r)
+            if isinstance(arg, list) and arg != list(A):
+                res = {'argument-mutated': 'object_indexes'}
+            _spoil(r)
+            ints.append(res)
         except Exception as e:
             ints.append(_err(e))
     o['int'] = ints
@@ -500,6 +649,80 @@ def _impl_set(c, state=None):
     return o
 
 
+def _impl_iv(c, state=None):
+    from fcapy.mvcontext.pattern_structure import IntervalPS, IntervalNumpyPS
+    cv, canon, _ = _numconv(c)
+
+    def mk_col():
+        col = [tuple(cv(y) for y in x) if isinstance(x, list) else cv(x) for x in c['col']]
+        return [list(x) if (isinstance(x, tuple) and i % 2) else x for i, x in enumerate(col)]
+
+    def mk_desc(d):
+        return None if d is None else tuple(cv(y) for y in d) if isinstance(d, list) else cv(d)
+
+    def canon_int(r):
+        return None if r is None else [canon(r[0]), canon(r[1])]
+    out = {}
+    for eng, cls in (('py', IntervalPS), ('np', IntervalNumpyPS)):
+        try:
+            ps = _obtain(state, eng, cls, mk_col(), c.get('assign', True))
+        except Exception as e:
+            out[eng] = {'data': _err(e)}
+            continue
+        raw = ps._data.tolist() if hasattr(ps._data, 'tolist') else ps._data
+        o = {'data': [[canon(v[0]), canon(v[1])] for v in raw]}
+        o.update(_observe(ps, c, mk_desc, canon_int))
+        out[eng] = o
+    return out
+
+
+def _set_conv(c):
+    if c.get('vpool'):
+        vp = list(c['vpool'])
+        return lambda v: vp[v]
+    return (lambda v: LETTERS[v]) if c['vals'] == 'str' else (lambda v: v)
+
+
+def _set_value(codes, c):
+    conv = _set_conv(c)
+    xs = [conv(v) for v in codes]
+    form = c['form']
+    if form == 'set':
+        return set(xs)
+    if form == 'frozenset':
+        return frozenset(xs)
+    if form == 'tuple':
+        return tuple(xs)
+    if form == 'duplist':
+        return xs + xs[:1]
+    if form == 'atom' and len(xs) == 1:
+        return xs[0]
+    return list(xs)
+
+
+def _set_codes(s, c):
+    if c.get('vpool'):
+        vp = list(c['vpool'])
+        if not all(v in vp for v in s):
+            return [{'not-a-column-value': sorted(map(repr, s))}]
+        return sorted(vp.index(v) for v in s)
+    if c['vals'] == 'str':
+        return sorted(LETTERS.index(v) for v in s)
+    return sorted(int(v) for v in s)
+
+
+def _impl_set(c, state=None):
+    from fcapy.mvcontext.pattern_structure import SetPS
+    conv = _set_conv(c)
+    try:
+        ps = _obtain(state, 'set', SetPS, [_set_value(v, c) for v in c['col']], c.get('assign', True))
+    except Exception as e:
+        return {'data': _err(e)}
+    o = {'data': [_set_codes(s, c) for s in ps._data]}
+    o.update(_observe(ps, c, lambda d: None if d is None else {conv(v) for v in d}, lambda r: _set_codes(r, c)))
+    return o
+
+
 def _impl_attr(c, state=None):
     from fcapy.mvcontext.pattern_structure import AttributePS
     col = [bool(v) for v in c['col']] if c['raw'] == 'bool' else list(c['col'])
@@ -508,34 +731,10 @@ def _impl_attr(c, state=None):
     except Exception as e:
         return {'data': _err(e)}
     o = {'data': [int(bool(v)) for v in ps._data]}
-    ext = []
-    for d in c['descs']:
-        row = []
-        for b in c['bases']:
-            try:
-                row.append(_ints(ps.extension_i(bool(d), None if b is None else list(b))))
-            except Exception as e:
-                row.append(_err(e))
-        ext.append(row)
-    o['ext'] = ext
-    ints = []
-    for A in c['objs']:
-        try:
-            r = ps.intention_i(list(A))
-            ints.append(int(r) if isinstance(r, (bool, int)) or type(r).__name__ == 'bool_' else {'nonbool': repr(r)})
-        except Exception as e:
-            ints.append(_err(e))
-    o['int'] = ints
-    if c.get('bin'):
-        try:
-            pairs = list(ps.to_bin_attr_extents())
-            o['bin'] = {'names': [str(nm) for nm, _ in pairs], 'flags': [[int(x) for x in e.tolist()] for _, e in pairs]}
-        except Exception as e:
-            o['bin'] = _err(e)
-        try:
-            o['nbin'] = int(ps.n_bin_attrs)
-        except Exception as e:
-            o['nbin'] = _err(e)
+
+    def canon_int(r):
+        return int(r) if isinstance(r, (bool, int)) or type(r).__name__ == 'bool_' else {'nonbool': repr(r)}
+    o.update(_observe(ps, c, bool, canon_int))
     return o
 
 
@@ -588,14 +787,15 @@ def _fail(kind, sig, detail):
     return dict(ok=False, kind=kind, sig=sig, detail=detail[:600])
 
 
-def _iv_name(desc, scale):
+def _iv_name(desc, c):
     if desc is None:
         return 'x: ∅'
-    return f'x: ({float(desc[0] / scale)}, {float(desc[1] / scale)})'
+    shown = _numconv(c)[2]
+    return f'x: ({shown(desc[0])}, {shown(desc[1])})'
 
 
 def _set_name(comb, c):
-    conv = (lambda v: LETTERS[v]) if c['vals'] == 'str' else (lambda v: v)
+    conv = _set_conv(c)
     return 'x: ' + (', '.join(str(conv(v)) for v in comb) if comb else '∅')
 
 
@@ -615,7 +815,7 @@ def _check_engine(c, tag, o, model, spec_ext, galois, in_scope, name_of, part='a
             if sp is not None:
                 if got != sp:
                     return _fail('property', f'C13:{ps}:{tag}:ext:{"err:" + got["err"] if isinstance(got, dict) else "wrong"}',
-                                 f'{tag}.extension_i({d}, {b}) on column {c["col"]} (scale {c.get("scale", 1)}) returned {got}; '
+                                 f'{tag}.extension_i({d}, {b}) on column {c["col"]} ({"pool " + str(c["pool"]) if c.get("pool") else "scale " + str(c.get("scale", 1))}) returned {got}; '
                                  f'the objects of the base covered by the description are {sp}')
             elif got != model['ext'][i][k]:
                 return _fail('correspondence', f'C13:{ps}:{tag}:ext-outside-scope',
@@ -726,11 +926,11 @@ def _judge(c, io, rep):
             if 'ext' not in o:
                 return _fail('correspondence', f'C13:iv:{e}:ctor', f'{e}: constructor raised {o.get("data")} on {c["col"]}')
             gal = r['galois'][e] if in_scope else None
-            v = _check_engine(c, e, o, m, spec['ext'], gal, in_scope, lambda d: _iv_name(d, c['scale']), part='calls')
+            v = _check_engine(c, e, o, m, spec['ext'], gal, in_scope, lambda d: _iv_name(d, c), part='calls')
             if v is not None:
                 return v
         for e, m in (('py', mpy), ('np', mnp)):
-            v = _check_engine(c, e, io[e], m, spec['ext'], None, in_scope, lambda d: _iv_name(d, c['scale']), part='nbin')
+            v = _check_engine(c, e, io[e], m, spec['ext'], None, in_scope, lambda d: _iv_name(d, c), part='nbin')
             if v is not None:
                 return v
         # the two engines against each other (everything observable, incl. the binary-attribute view and its names):
@@ -741,7 +941,7 @@ def _judge(c, io, rep):
             return _fail('property', 'C13:iv:np-vs-py:' + '+'.join(sorted(diff)),
                          f'IntervalNumpyPS and IntervalPS differ on {diff} for column {c["col"]}: {what}')
         for e, m in (('py', mpy), ('np', mnp)):
-            v = _check_engine(c, e, io[e], m, spec['ext'], None, in_scope, lambda d: _iv_name(d, c['scale']), part='bin')
+            v = _check_engine(c, e, io[e], m, spec['ext'], None, in_scope, lambda d: _iv_name(d, c), part='bin')
             if v is not None:
                 return v
         return dict(ok=True)
